@@ -75,6 +75,10 @@ def _fragments(opts, variant):
         fr.append(["-a", "ACGTACGTAC"] if variant.get("adapter", "plain") != "front" else ["-g", "ACGTACGTAC"])
     if opts.get("A"):
         fr.append(["-A", "TTGGCCAATT"])
+    if (opts.get("a") or opts.get("A")) and "times" in variant:
+        fr.append(["--times", variant["times"]])
+    if (opts.get("a") or opts.get("A")) and "action" in variant:
+        fr.append(["--action", variant["action"]])
     if (opts.get("a") or opts.get("A")) and variant.get("adapter") == "revcomp":
         fr.append(["--revcomp"])
     if opts.get("a") and opts.get("A") and variant.get("adapter") == "pair":
@@ -340,7 +344,8 @@ def _expected(opts, variant, mate, paired):
     elif amode == "pair" and opts.get("a") and opts.get("A"):
         e.append((3, ("PairedAdapterCutter",), None))
     elif (mate == 1 and opts.get("a")) or (mate == 2 and opts.get("A")):
-        e.append((3, ("AdapterCutter",), ("adapter", "ACGTACGTAC" if mate == 1 else "TTGGCCAATT")))
+        # --times and --action are settings of adapter trimming as such: they reach the cutter of either mate
+        e.append((3, ("AdapterCutter",), ("adapter", ("ACGTACGTAC" if mate == 1 else "TTGGCCAATT", int(variant.get("times", "1")), variant.get("action", "trim")))))
     if opts.get("polya"):
         e.append((4, ("PolyATrimmer",), ("revcomp", mate == 2)))
     length = None
@@ -374,7 +379,8 @@ def _param_ok(orig, check):
         return (orig.cutoff_front, orig.cutoff_back) == want
     if name == "adapter":
         ads = list(orig.adapters)
-        return len(ads) == 1 and ads[0].sequence == want
+        seq, times, action = want
+        return len(ads) == 1 and ads[0].sequence == seq and orig.times == times and orig.action == action
     return getattr(orig, name) == want
 
 
@@ -559,13 +565,13 @@ def _add(paired, variant, nbits, pieces, live="three", tails="all", timeout=600,
 
 # single-end: all 3072 subsets, every pipeline re-run under CrossHair; variants with all name-option combinations
 _add(False, {}, 6, 2, live="all", tag="-u x1")
-_add(False, {"cuts": 2, "q": "5,10", "xy": "x"}, 6, 1, tag="-u x2, -q 5,10, -x only")
+_add(False, {"cuts": 2, "q": "5,10", "xy": "x", "times": "2", "action": "mask"}, 6, 1, tag="-u x2, -q 5,10, -x only, --times 2 --action mask")
 _add(False, {"adapter": "revcomp", "xy": "y"}, 6, 1, tag="--revcomp, -y only")
 _add(False, {"adapter": "front", "nextseq": "0", "l": "0"}, 6, 1, live="none", tag="-g, --nextseq-trim 0, -l 0")
 # paired-end: all 49152 subsets in the base variant; the variants concern trimming options only and are combined with
 # three name-option combinations (none / all with -x -y / all with --rename)
 _add(True, {}, 10, 8, tag="-u/-U x1")
-_add(True, {"cuts": 2, "q": "5,10", "Q": "3,15"}, 10, 2, tails="three", live="none", tag="-u/-U x2, -q 5,10 -Q 3,15")
+_add(True, {"cuts": 2, "q": "5,10", "Q": "3,15", "times": "2", "action": "mask"}, 10, 2, tails="three", live="none", tag="-u/-U x2, -q 5,10 -Q 3,15, --times 2 --action mask")
 _add(True, {"adapter": "revcomp"}, 10, 2, tails="three", live="none", tag="--revcomp")
 _add(True, {"adapter": "pair", "xy": "x"}, 10, 2, tails="three", live="none", tag="--pair-adapters, -x only")
 _add(True, {"Q": "0", "xy": "y", "nextseq": "0", "l": "0"}, 10, 2, tails="three", live="none", tag="-Q 0, -y only, --nextseq-trim 0, -l 0")
@@ -582,7 +588,7 @@ def describe():
         "bounds": {"options": "single-end: all subsets of {-u, --nextseq-trim, -q, -a, --poly-a, -l} x {--trim-n, --length-tag, --strip-suffix, -x/-y, --rename, -z} (3072 admissible subsets: --rename excludes -x/-y), "
                               "every one of their pipelines re-run under CrossHair; paired-end: all subsets of {-u, -U, --nextseq-trim, -q, -Q, -a, -A, --poly-a, -l, -L} x the same name options (49152 subsets) natively, "
                               "of which per trimming-option subset three pipelines (no name option / all with -x -y / all with --rename) are re-run under CrossHair (quick; thorough re-runs all 49152)",
-                   "variants": "each with all trimming-option subsets: -u/-U given twice (order given) with -q 5,10 -Q 3,15; -g instead of -a; --revcomp; --pair-adapters; -Q 0; --nextseq-trim 0 and -l 0 (boundary values that are settings, not absence); -x alone; -y alone "
+                   "variants": "each with all trimming-option subsets: -u/-U given twice (order given) with -q 5,10 -Q 3,15; -g instead of -a; --revcomp; --pair-adapters; -Q 0; --nextseq-trim 0 and -l 0 (boundary values that are settings, not absence); --times 2 --action mask (must reach the adapter cutter of either mate); -x alone; -y alone "
                                "(single-end variants x all 48 name-option combinations, paired variants x three of them)",
                    "argv": "three permutations per subset (as listed, reversed with the file names first, interleaved with the file names in the middle); a repeated -u keeps its relative order",
                    "reads": "one abstract read (pair) per run; payload symbolic"},
